@@ -310,12 +310,12 @@ func run(c *lib.Ctx) error {
 	}()
 	go func() {
 		defer wg.Done()
-		strs, e2 = c.TLC("MCTermReader(strings)", lib.TLCRun{Dir: dir, Module: "MCTermReader", Workers: 4, Timeout: 12 * time.Minute, HeapGB: 8,
+		strs, e2 = c.TLC("MCTermReader(strings)", lib.TLCRun{Dir: dir, Module: "MCTermReader", Workers: 3, Timeout: 12 * time.Minute, HeapGB: 8,
 			Files: map[string][]byte{"MCTermReader.cfg": rp.cfg(L, 99, true)}})
 	}()
 	go func() {
 		defer wg.Done()
-		text, e3 = c.TLC("MCTermText", lib.TLCRun{Dir: dir, Module: "MCTermText", Workers: 2, Timeout: 10 * time.Minute,
+		text, e3 = c.TLC("MCTermText", lib.TLCRun{Dir: dir, Module: "MCTermText", Workers: 1, Timeout: 10 * time.Minute,
 			Files: map[string][]byte{"MCTermText.cfg": []byte(fmt.Sprintf("CONSTANT K = %d\nSPECIFICATION Spec\nINVARIANT TimeoutsLegal\nINVARIANT PlainTextLossless\nINVARIANT PoolIsPlain\nINVARIANT EmitB\n", K))}})
 	}()
 	wg.Wait()
